@@ -1347,6 +1347,15 @@ pub fn sessions_c17() -> Vec<Session> {
             probe: false,
             kitty: false,
         },
+        // several keys typed before the cursor position is asked for: position() sets them aside and puts them back
+        Session {
+            name: "position-query-three-keys",
+            acts: vec![Write(4), Arrive(inp(b"abc")), QueryPosition, Poll(Some(0)), Poll(Some(0)), Poll(Some(0)), Poll(Some(0))],
+            allowed: vec![(inp(b"z"), 1)],
+            stall_selects: 0,
+            probe: false,
+            kitty: false,
+        },
         Session {
             name: "kitty-error-redraw",
             acts: vec![DrawImage, Poll(Some(0)), ImageError, Poll(Some(5)), Poll(Some(0))],
